@@ -4,6 +4,7 @@ import (
 	"encoding/json"
 	"errors"
 	"fmt"
+	"io"
 	"math"
 	"reflect"
 	"runtime"
@@ -64,6 +65,19 @@ func init() {
 type c14Err struct{ msg string }
 
 func (e c14Err) Error() string { return e.msg }
+
+// errors on which fmt.Sprint and a direct Error() call differ: a fmt.Formatter, and an Error method that panics
+// (fmt contains the panic; a shortcut around fmt would not)
+type c14ErrFmt struct{ msg string }
+
+func (e c14ErrFmt) Error() string { return e.msg }
+func (e c14ErrFmt) Format(f fmt.State, c rune) {
+	_, _ = io.WriteString(f, "E042: "+e.msg)
+}
+
+type c14ErrPanic struct{ msg string }
+
+func (e c14ErrPanic) Error() string { panic("boom " + e.msg) }
 
 type c14PErr struct{ msg string }
 
@@ -171,6 +185,10 @@ func c14Build(a c14Arg) any {
 			return c14ErrArr{tok}
 		case "errstr":
 			return c14ErrStr{tok}
+		case "errfmt":
+			return c14ErrFmt{tok}
+		case "errpanic":
+			return c14ErrPanic{tok}
 		default:
 			return c14Err{tok}
 		}
@@ -1116,7 +1134,12 @@ func c14Gen(r *Rand, tier string, emit func(op any)) {
 	iArg := func(n int) c14Arg { return c14Arg{T: "i", Tok: c14H(strconv.Itoa(n))} }
 	special := [][]c14Arg{{}, {sArg("")}, {sArg("\n")}, {sArg("x\n")}, {sArg("x\n\n")}, {sArg("x ")}, {sArg("a"), sArg("b")}, {iArg(1), iArg(2)},
 		{sArg("a"), iArg(1)}, {iArg(1), sArg("a")}, {{T: "z", Tok: c14H("nil")}}, {sArg("%d")}, {iArg(7), sArg("\n")},
-		{{T: "e", Tok: c14H("boom\n")}}, {sArg(""), sArg("")}}
+		{{T: "e", Tok: c14H("boom\n")}}, {sArg(""), sArg("")},
+		// a lone error of every kind (the message is what fmt makes of it, not what Error() returns)
+		{{T: "e", Tok: c14H("plain")}}, {{T: "e", VK: "tnil", Tok: c14H("x")}}, {{T: "e", VK: "perr", Tok: c14H("p")}},
+		{{T: "e", VK: "errstr", Tok: c14H("ES:s")}}, {{T: "e", VK: "errfmt", Tok: c14H("formatted")}},
+		{{T: "e", VK: "errpanic", Tok: c14H("err")}}, {{T: "e", VK: "errfmt", Tok: c14H("f")}, sArg("tail")},
+		{sArg("head"), {T: "e", VK: "errpanic", Tok: c14H("q")}}}
 	gi := 0
 	for _, args := range special {
 		for _, fam := range []string{"", "ln", "f"} {
